@@ -176,7 +176,8 @@ func NewMatcher(trigger Trigger, on string) *Matcher {
 
 // Match returns true if keyPath matches the On condition.
 func (tm *Matcher) Match(keyPath string) bool {
-	pattern := strings.Replace(tm.On, "*", "[^/]+", -1)
+	// "On" is a prefix of the key path made of whole path components, "*" standing for one component
+	pattern := "^" + strings.Replace(regexp.QuoteMeta(tm.On), `\*`, "[^/]+", -1) + "(/|$)"
 	matched, _ := regexp.MatchString(pattern, keyPath)
 	return matched
 }
